@@ -36,3 +36,31 @@ Theorem C16_user_wins_pinned_refuted :
   exists c s, has (c_optmask c) B_FLAGS = true /\ c_flags (sysconfig_apply_gen false c s) <> c_flags c.
 Proof. exact sysconfig_apply_pinned_overrides_flags. Qed.
 Print Assumptions C16_user_wins_pinned_refuted.
+
+(* C16_save_init_id.  Full statement: effective (init (save c)) = effective c on every field the
+   mask covers.  Proved for every channel satisfying chan_wf (the shape ares_init_options
+   produces from int-sized option values; inhabited, see C16_save_init_hypotheses_inhabited) and
+   for all covered fields except the server list (the legacy struct holds IPv4 addresses only;
+   servers are the subject of C16_dup / C16_csv_fixpoint and of the correspondence run).
+   Missing: channels whose timeout exceeds INT_MAX ms (C16_save_init_timeout_refuted). *)
+Theorem C16_save_init_id_partial : forall nf g e c o m' c1,
+  chan_wf c -> (has (c_optmask c) B_DOMAINS = true -> c_domains c <> []) ->
+  save_options g c = Ok (o, m') -> init_options nf e o m' = Ok c1 ->
+  covered_same c c1.
+Proof. exact save_init_effective. Qed.
+Print Assumptions C16_save_init_id_partial.
+
+Theorem C16_save_init_hypotheses_inhabited :
+  chan_wf ex_chan /\ (has (c_optmask ex_chan) B_DOMAINS = true -> c_domains ex_chan <> []) /\
+  exists o m, save_options 0 ex_chan = Ok (o, m).
+Proof. exact chan_wf_example. Qed.
+Print Assumptions C16_save_init_hypotheses_inhabited.
+
+Theorem C16_save_init_timeout_refuted :
+  exists o m c g o' m' c0,
+    init_by_options o m = Ok c /\ c_timeout c = 3000000000%Z /\ has (c_optmask c) B_TIMEOUTMS = true /\
+    save_options g (mkChan (c_flags c) (c_timeout c) 3 1 0 false 0 0 0 0 [] [] (Some s_fb) 1232 3600 0 (c_optmask c) 10 5000 0
+                           [mkServer loopback 53 53 [] 0] [] 0 [] None) = Ok (o', m') /\
+    init_by_options o' m' = Ok c0 /\ has (c_optmask c0) B_TIMEOUTMS = false /\ c_timeout c0 = 0%Z.
+Proof. exact save_init_timeout_refuted. Qed.
+Print Assumptions C16_save_init_timeout_refuted.
